@@ -124,10 +124,10 @@ class C16(Check):
         return 1
 
     def specs(self):
-        a = [worlds.WorldSpec(("+", "-"), False, False, 0, "richd")]
+        a = [worlds.WorldSpec(("+", "-"), False, False, 0, "edge")]
         shipped = [("shipped", "slco1b1"), ("shipped", "nat2"), ("shipped", "tpmt"), ("shipped", "cyp2c19")]
         if self.tier == "thorough":
-            a += [worlds.WorldSpec(("-", "+"), True, True, 1, "richd")] + shipped
+            a += [worlds.WorldSpec(("-", "+"), True, True, 1, "edge")] + shipped
         else:
             a += [shipped[self.seed % 4]]
         return a
